@@ -31,6 +31,22 @@ func (ex *Exec) ctxAdvance(st *State) {
 	ex.setH(st, "X|ctx.done", nd)
 }
 
+// ctxBounded: ghost ctx.bounded[ref] — the context carries a finite deadline (its own or an ancestor's). C08: every
+// blocking library call must be given such a context (or an explicit timeout / read deadline).
+func (ex *Exec) ctxBounded(st *State) string {
+	ex.registerKey("X|ctx.bounded", arrSort(sInt, sBool))
+	return ex.heapGet(st, "X|ctx.bounded", arrSort(sInt, sBool))
+}
+
+// blockingBound raises the C08 obligation that a blocking call is bounded.
+func (c *callCtx) blockingBound(what, cond string) {
+	ex := c.ex
+	if ex.pure > 0 || c.fr == nil || c.reach == nil || c.instr == nil {
+		return
+	}
+	ex.oblige(c.fr.label("C08.bounded."+sanitize(what)), "assert", []string{"C08"}, imp(c.r(), cond), ex.posOf(c.instr.Pos()), "blocking call "+what+" has no finite bound (context without deadline / no timeout / no read deadline)")
+}
+
 func (ex *Exec) newCtx(st *State, parent Val, tagName string) Val {
 	ref := ex.alloc(st)
 	tag := num(int64(ex.w.typeIDByName(tagName)))
@@ -39,6 +55,13 @@ func (ex *Exec) newCtx(st *State, parent Val, tagName string) Val {
 	done := ex.ctxDone(st)
 	// a fresh child is done iff its parent already is (it may become done at any later point)
 	ex.setH(st, "X|ctx.done", ex.name("ctxdone", sto(done, ref, sel(done, parent.L[1])), arrSort(sInt, sBool)))
+	// timer contexts have a deadline; the others inherit their parent's
+	bd := ex.ctxBounded(st)
+	b := sel(bd, parent.L[1])
+	if tagName == "*context.timerCtx" {
+		b = "true"
+	}
+	ex.setH(st, "X|ctx.bounded", ex.name("ctxbounded", sto(bd, ref, b), arrSort(sInt, sBool)))
 	return Val{L: []string{tag, ref}}
 }
 
@@ -71,6 +94,7 @@ func init() {
 		}
 		if ex.pure == 0 {
 			ex.assume(not(sel(ex.ctxDone(c.st), ref)))
+			ex.assume(not(sel(ex.ctxBounded(c.st), ref)))
 		}
 		return Val{L: []string{tag, ref}}
 	})
@@ -88,7 +112,7 @@ func init() {
 	reg("context.Context.Deadline", func(c *callCtx) Val {
 		ex := c.ex
 		t := ex.freshVal(ex.w.pkgs["time"].Pkg.Scope().Lookup("Time").Type(), c.st, "deadline")
-		ok := ex.freshConst("hasdeadline", sBool)
+		ok := ex.name("hasdeadline", sel(ex.ctxBounded(c.st), c.args[0].L[1]), sBool)
 		return Val{L: []string{t.L[0], ok}}
 	})
 }
